@@ -975,3 +975,38 @@ Example numeric_verb_examples :
   GoFmtInt.dec 0 = "0" /\ GoFmtInt.dec (-9223372036854775808) = "-9223372036854775808" /\
   GoFmtInt.fmt_go2 "%s|%d|%v" [GoFmtInt.OInt "int" 5; GoFmtInt.OStr "a"; GoFmtInt.OInt "int64" 7; GoFmtInt.OStr "b"] = Some "%!s(int=5)|%!d(string=a)|7%!(EXTRA string=b)".
 Proof. exact GoFmtIntProofs.fmt2_examples. Qed.
+
+(* ---- round 8, second part: explicit argument indexes.  model/GoFmtIdx.v = doPrintf as one pass with a state (where the scan stands inside
+   a directive, number of the next operand, "reordered"): %[n]verb takes operand n, the next plain verb operand n+1, a bad index prints
+   %!v(BADINDEX), and once an index was seen fmt no longer reports unused operands.  The LogQL json / regexp parser planners place QUOTED
+   REQUEST STRINGS with %[2]s ... %[1]s (planner_parser_json.go, planner_parser_regexp.go); the step planners print %d ... %[1]d. *)
+From Qryn Require model.GoFmtIdx proofs.GoFmtIdxProofs.
+
+(* on every format and operand list where the index-free model answers, this one gives the same text *)
+Theorem fmt_model_with_indexes_extends_the_index_free_model : forall f ops o,
+  GoFmtInt.fmt_go2 f ops = Some o -> GoFmtIdx.fmt_go3 f ops = Some o.
+Proof. exact GoFmtIdxProofs.fmt_go3_refines_fmt_go2. Qed.
+Print Assumptions fmt_model_with_indexes_extends_the_index_free_model.
+
+(* the census's reading of a constant format whose directives NAME their operands: for all texts without a percent sign, all operand
+   lists (strings with any bytes, any integers) and all index lists (each between 1 and 9 and at most the number of operands; an operand
+   may be printed several times or never), fmt prints the texts with the named operands between them - nothing of an operand is read
+   as a directive, no operand is reported as unused *)
+Theorem constant_format_with_argument_indexes_is_concatenation : forall ops texts idxs,
+  forallb GoFmt.pct_free texts = true -> S (List.length idxs) = List.length texts -> idxs <> [] ->
+  forallb (GoFmtIdx.idx_ok ops) idxs = true ->
+  GoFmtIdx.fmt_go3 (GoFmtIdx.mkformat3 ops texts idxs) ops
+  = Some (GoFmt.interleave texts (map (fun i => GoFmtInt.show (nth (i - 1) ops (GoFmtInt.OStr ""))) idxs)).
+Proof. exact GoFmtIdxProofs.fmt3_constant_format_idx. Qed.
+Print Assumptions constant_format_with_argument_indexes_is_concatenation.
+
+(* hypotheses met: the json parser planner's format with a quoted path holding a quote and a percent sign; a step planner's format;
+   bad indexes; a format built by mkformat3 *)
+Example argument_index_examples :
+  GoFmtIdx.fmt_go3 "if(JSONType(%[2]s, %[1]s) == 'String', JSONExtractString(%[2]s, %[1]s), JSONExtractRaw(%[2]s, %[1]s))" [GoFmtInt.OStr "'a\'%s'"; GoFmtInt.OStr "string"]
+  = Some "if(JSONType(string, 'a\'%s') == 'String', JSONExtractString(string, 'a\'%s'), JSONExtractRaw(string, 'a\'%s'))" /\
+  GoFmtIdx.fmt_go3 "intDiv(timestamp_ns, %d) * %[1]d" [GoFmtInt.OInt "int64" 15000000000] = Some "intDiv(timestamp_ns, 15000000000) * 15000000000" /\
+  GoFmtIdx.fmt_go3 "%[3]d|%[0]s|%[1]d %s" [GoFmtInt.OInt "int" 1; GoFmtInt.OStr "b"] = Some "%!d(BADINDEX)|%!s(BADINDEX)|1 b" /\
+  GoFmtIdx.mkformat3 [GoFmtInt.OStr "x"; GoFmtInt.OInt "int" 5] ["a("; ", "; ")"] [2; 1] = "a(%[2]d, %[1]s)" /\
+  GoFmtIdx.idx_ok [GoFmtInt.OStr "x"; GoFmtInt.OInt "int" 5] 2 = true.
+Proof. exact GoFmtIdxProofs.fmt3_examples. Qed.
